@@ -17,7 +17,18 @@ Record tstate := mkT {
   ts_tbl : table;
   ts_cuids : list str;        (* cuid returned for handler k (k = number of earlier registrations) *)
   ts_rets : list bool;        (* what the AddTmp function of handler k returns *)
+  ts_closed : list N;         (* handlers whose done channel has been closed *)
 }.
+
+Fixpoint memN (x : N) (l : list N) : bool :=
+  match l with [] => false | y :: r => (x =? y) || memN x r end.
+
+(* once.Do(close(done)): of the handlers whose finish ran, those not closed before, once each *)
+Fixpoint newly_closed (fin closed : list N) : list N :=
+  match fin with
+  | [] => []
+  | h :: r => if memN h closed then newly_closed r closed else h :: newly_closed r (h :: closed)
+  end.
 
 Definition uid_str (k : nat) : str := 117 :: show_nat k.          (* "u<k>" *)
 
@@ -30,7 +41,7 @@ Definition show_cuid (c : str) : str :=
 Definition do_add (st : tstate) (bg tmp ret : bool) (cmd : str) : tstate * str :=
   let k := length (ts_cuids st) in
   let (t', cuid) := register (ts_tbl st) false bg cmd (uid_str k) (mkH (N.of_nat k) tmp) in
-  (mkT t' (ts_cuids st ++ [cuid]) (ts_rets st ++ [ret]), cuid).
+  (mkT t' (ts_cuids st ++ [cuid]) (ts_rets st ++ [ret]) (ts_closed st), cuid).
 
 Definition lower_cmd_part (c : str) : str :=
   match index_byte colon c with
@@ -77,26 +88,27 @@ Fixpoint run_ops (fuel : nat) (st : tstate) (args : list str) : list str :=
       else if one_byte06 68 op then                                    (* D cmd: AddTmp, deadline passes *)
         match rest with
         | cmd :: r =>
+          let k := N.of_nat (length (ts_cuids st)) in
           let (st1, c) := do_add st true true false cmd in
-          let (t2, ok) := remove (ts_tbl st1) c in
-          (show_cuid c ++ [58] ++ show_bool ok)
-            :: run_ops f (mkT t2 (ts_cuids st1) (ts_rets st1)) r
+          let (t2, _) := remove (ts_tbl st1) c in                      (* finish: Remove, then close *)
+          (show_cuid c ++ [58] ++ show_bool true)
+            :: run_ops f (mkT t2 (ts_cuids st1) (ts_rets st1) (k :: ts_closed st1)) r
         | _ => [bs "?args"]
         end
       else if one_byte06 82 op then                                    (* R mode arg *)
         match rest with
         | mode :: arg :: r =>
           let (t', ok) := remove (ts_tbl st) (remove_arg st mode arg) in
-          ([114; 58] ++ show_bool ok) :: run_ops f (mkT t' (ts_cuids st) (ts_rets st)) r
+          ([114; 58] ++ show_bool ok) :: run_ops f (mkT t' (ts_cuids st) (ts_rets st) (ts_closed st)) r
         | _ => [bs "?args"]
         end
       else if one_byte06 67 op then                                    (* C cmd *)
         match rest with
-        | cmd :: r => [99] :: run_ops f (mkT (clear (ts_tbl st) cmd) (ts_cuids st) (ts_rets st)) r
+        | cmd :: r => [99] :: run_ops f (mkT (clear (ts_tbl st) cmd) (ts_cuids st) (ts_rets st) (ts_closed st)) r
         | _ => [bs "?args"]
         end
       else if one_byte06 88 op then                                    (* X *)
-        [120] :: run_ops f (mkT (clear_all (ts_tbl st)) (ts_cuids st) (ts_rets st)) rest
+        [120] :: run_ops f (mkT (clear_all (ts_tbl st)) (ts_cuids st) (ts_rets st) (ts_closed st)) rest
       else if one_byte06 78 op then                                    (* N cmd *)
         match rest with
         | cmd :: r => ([110; 58] ++ show_nat (table_count (ts_tbl st) cmd)) :: run_ops f st r
@@ -108,9 +120,10 @@ Fixpoint run_ops (fuel : nat) (st : tstate) (args : list str) : list str :=
         match rest with
         | cmd :: ec :: r =>
           match run_event (ts_tbl st) (mkEv cmd (one_byte06 49 ec)) (ret_of st) with
-          | (t', inv, closed) =>
+          | (t', inv, fin) =>
+            let closed := newly_closed fin (ts_closed st) in
             ([101; 58] ++ show_Ns inv ++ [124] ++ show_Ns closed)
-              :: run_ops f (mkT t' (ts_cuids st) (ts_rets st)) r
+              :: run_ops f (mkT t' (ts_cuids st) (ts_rets st) (closed ++ ts_closed st)) r
           end
         | _ => [bs "?args"]
         end
@@ -119,7 +132,7 @@ Fixpoint run_ops (fuel : nat) (st : tstate) (args : list str) : list str :=
   end.
 
 Definition show_table_ops (args : list str) : str :=
-  join semi (run_ops (S (length args)) (mkT empty_table [] []) args).
+  join semi (run_ops (S (length args)) (mkT empty_table [] [] []) args).
 
 (* ---- dispatch.trace: trace acceptance ---------------------------------------------- *)
 
@@ -256,8 +269,8 @@ Definition show_trace (args : list str) : str :=
 
 (* mode ("d" deadline passes / "r" the function returns true), remover ("R" Remove(cuid),
    "C" Clear(cmd), "X" ClearAll, "-" nobody), cmd.  The remover acts after the registration
-   and before the wrapper's / deadline goroutine's own Remove(cuid), which closes done only
-   when it succeeds. *)
+   and before the wrapper's / deadline goroutine's finish (Remove(cuid), then the once-only
+   close of done). *)
 Definition show_tmpdone (args : list str) : str :=
   match args with
   | _ :: rem :: cmd :: _ =>
@@ -267,8 +280,8 @@ Definition show_tmpdone (args : list str) : str :=
       else if one_byte06 67 rem then (clear t0 cmd, [45])
       else if one_byte06 88 rem then (clear_all t0, [45])
       else (t0, [45]) in
-    let (_, ok2) := remove t1 cuid in
-    bs "ok1=" ++ r1 ++ bs ";closed=" ++ show_bool ok2
+    let (_, _) := remove t1 cuid in          (* finish: Remove (finds nothing), then close *)
+    bs "ok1=" ++ r1 ++ bs ";closed=" ++ show_bool true
   | _ => bs "?args"
   end.
 
